@@ -193,9 +193,9 @@ def make_inputs(w, nf0, nff, sv, order):
     X2.log()  # the atom log(xif^2) gets its name before any fork
     theory = NS(order=order, xif=Squarable(X2), couplings=NS(), n3lo_ad_variation=(0,) * 7, use_fhmruvv=True, matching_order=(order[0] - 1, 0),
                 heavy=NS(masses=[NS(value=Squarable(m_)) for m_ in Ms], masses_scheme=w.POLE, matching_ratios=list(RATIOS)))
-    operator = NS(mu20=mu0, init=(None, nf0), evolgrid=[(t, nff)], xgrid=None,
+    operator = NS(mu20=mu0, init=(None, nf0), evolgrid=[(t, nff)], xgrid=NS(log=True, raw=np.array([0.5, 1.0]), size=2),
                   configs=NS(evolution_method=w.METHOD, ev_op_iterations=1, ev_op_max_order=(10, 0), polarized=False, time_like=False,
-                             n_integration_cores=1, scvar_method=w.SVM[sv], interpolation_polynomial_degree=1),
+                             n_integration_cores=1, scvar_method=w.SVM[sv], interpolation_polynomial_degree=1, interpolation_is_log=True),
                   debug=NS(skip_singlet=False, skip_non_singlet=False))
     return theory, operator, W, mu0, t, X2
 
@@ -337,6 +337,11 @@ def _decide_summary(log, decide, summary, kw, tag):
         return
     for i, Di in enumerate(summary):
         base = Di.dom + Di.pc + eps_dom
+        # vacuity twin of the pair obligations: path i has neighbours in the domain
+        rs, _m, _dt = S.check(base + [sub(c) for c in summary[0].dom], 20000)
+        log.twins.append(("pairs of path %d %s" % (i + 1, tag), rs))
+        if rs != "sat":
+            log.inconclusive.append("vacuity twin of the pair obligations of path %d %s is %s" % (i + 1, tag, rs))
         # totality: every neighbour t' of a point of path i lies on some explored path (sanity of the summary)
         cover = z3.Or([z3.And([sub(c) for c in Dj.pc]) for Dj in summary])
         rs, m, dt = S.check(base + [sub(c) for c in summary[0].dom] + [z3.Not(cover)], 20000)
